@@ -20,8 +20,8 @@ ASSUMPTIONS = [
     "the private hook point SupervisedOPF._find_prototypes may be renamed by a refactoring: then the hook oracle is inconclusive and the boundary oracle alone decides",
 ]
 BUDGET = {
-    "quick": {"cases": 2400, "seconds": 60, "shards": 8},
-    "thorough": {"cases": 40000, "seconds": 540, "shards": 16},
+    "quick": {"cases": 9600, "seconds": 90, "shards": 8},
+    "thorough": {"cases": 160000, "seconds": 900, "shards": 16},
 }
 REQUIRED_OBS = ["hook_tree_checked", "boundary_tiefree_checked", "boundary_sandwich_checked", "semi_cases", "mst_multiset_compared"]
 MIN_NONTRIVIAL = 100
